@@ -140,7 +140,7 @@ class C08(ScanCheck):
             for (ver, t, ik) in types:
                 v, s = sc.rscalar(rng), sc.rscalar(rng)
                 r = pick_ranges(rng)
-                n = rng.choice([1, 2, 3]) if t in (1, 2) else rng.choice([1, 2, 3, 5])
+                n = rng.choice([2, 2, 3]) if t in (1, 2) else rng.choice([1, 2, 3, 5])
                 outs = []
                 for i in range(n):
                     idx = in_range_index(rng, r)
@@ -188,6 +188,19 @@ class C08(ScanCheck):
                     s4 = dict(base)
                     s4["outs"] = outs4
                     scen.append((s4, [(r, None)], "scan:encrypted-form-special rct%d" % t))
+                # compensating corruption: two owned outputs whose commitments are moved by +d*H and -d*H (and by +T / -T): the sum
+                # of the commitments is unchanged, each single opening is wrong
+                if len(own) >= 2:
+                    i1, i2 = rng.sample(own, 2)
+                    c1 = ed.decompress_strict(sc.send_output(base, i1, outs[i1])["commit"])
+                    c2 = ed.decompress_strict(sc.send_output(base, i2, outs[i2])["commit"])
+                    for delta in (sc.fmul(rng.randrange(1, 2**40), sc.HPT), sc.gmul(rng.randrange(1, L)), sc.HPT):
+                        outs5 = [dict(o) for o in outs]
+                        outs5[i1]["cov"] = sc.cp(sc.padd(c1, delta))
+                        outs5[i2]["cov"] = sc.cp(sc.psub(c2, delta))
+                        s5 = dict(base)
+                        s5["outs"] = outs5
+                        scen.append((s5, [(r, None)], "scan:compensating-commitments rct%d" % t))
                 outs3 = [dict(o) for o in outs]
                 outs3[i]["cov"] = sc.garbage_key(rng)
                 s3 = dict(base)
